@@ -18,11 +18,25 @@ theorem sortedLt_pairwise : ∀ (l : List Nat), sortedLt l = true → l.Pairwise
     · exact h.1
     · exact Nat.lt_trans h.1 ((List.pairwise_cons.mp ih).1 x hx)
 
+theorem ins_perm (x : Nat) : ∀ l : List Nat, (ins x l).Perm (x :: l)
+  | [] => List.Perm.refl _
+  | y :: r => by
+    unfold ins
+    split
+    · exact List.Perm.refl _
+    · exact ((ins_perm x r).cons y).trans (List.Perm.swap x y r)
+
+theorem isort_perm : ∀ l : List Nat, (isort l).Perm l
+  | [] => List.Perm.refl _
+  | x :: r => by
+    show (ins x (isort r)).Perm (x :: r)
+    exact (ins_perm x _).trans ((isort_perm r).cons x)
+
 theorem permB_sound {tr : Array Ev} {sched : List Nat} (h : permB tr sched = true) :
     sched.Perm (List.range tr.size) := by
   unfold permB at h
   have h' := eq_of_beq h
-  have := List.mergeSort_perm sched (fun a b => decide (a ≤ b))
+  have := isort_perm sched
   rw [h'] at this
   exact this.symm
 
